@@ -181,7 +181,7 @@ def mutate(config):
                 v.clear()
             else:
                 v["poison"] = ["POISON"]
-        elif type(v).__name__ in ("Wrapped", "Wrapped2"):
+        elif outcome.is_wrapped(v):
             rec(v.section)
         elif hasattr(v, "getSectionAttributes"):
             for a in v.getSectionAttributes():
